@@ -117,6 +117,9 @@ def handleDet (st : St) (fid det impl : String) : Verdict :=
                | .unsound w => ("VIOL", w)
                | .missedK1 n => ("VIOL", s!"K1: value-typed `{n}` assigned in a constructor only from string/abi.*/bytes(..)-shaped right-hand sides is not suggested")
                | .missed n => ("VIOL", s!"value-typed `{n}` assigned in a constructor and unwritten elsewhere is not suggested"))
+          else if det == "pack_storage_variables_optimization" || det == "pack_struct_variables_optimization" then
+            (match packOracleOn (det == "pack_struct_variables_optimization") f.tree (locs.map fun (s, e) => ⟨0, s, e⟩) with
+             | none => ("ok", "") | some w => ("VIOL", w))
           else if det == "memory_to_calldata_optimization" then
             (match memoryToCalldataOracle f.tree locs with | none => ("ok", "") | some w => ("VIOL", w))
           else if versionGated.contains det then
@@ -271,7 +274,9 @@ def handleFull (v o q implHex : String) : Verdict :=
   let stale := implLines.contains "stale report of a previous run"
   let ok := hasV == !V.isEmpty && hasO == !O.isEmpty && !stale
   { kind := "FULLREPORT", agree := if modelLines == implLines then "A" else "D", oracle := if ok then "ok" else "VIOL",
-    detail := if modelLines == implLines && ok then "" else s!"parts/stale mismatch or model difference ({modelLines.length} vs {implLines.length} lines)" }
+    detail := if modelLines == implLines && ok then ""
+              else if stale then "stale: text of the previous report survives in the new one"
+              else s!"render: parts mismatch or model difference ({modelLines.length} vs {implLines.length} lines)" }
 
 def optField (s : String) : Option String := if s == "-" then none else some (bytesToString (unhex s.toList))
 
@@ -394,7 +399,7 @@ def handleStrLit (st : St) (id1 id3 det impl1 impl3 : String) : Verdict :=
     let agree := m1 == m3
     let oracle := impl1 != "PANIC" && impl1 == impl3
     { kind := "STRLIT", group := det, agree := if agree then "A" else "D", oracle := if oracle then "ok" else "VIOL",
-      detail := if agree && oracle then "" else s!"original strings: {impl1}|code-like text inside the strings: {impl3}|model {fmtLocs m1} vs {fmtLocs m3}" }
+      detail := if agree && oracle then "" else if impl1 == "PANIC" || impl3 == "PANIC" then "panic" else s!"original strings: {impl1}|code-like text inside the strings: {impl3}|model {fmtLocs m1} vs {fmtLocs m3}" }
   | _, _, _ => { kind := "STRLIT", group := det, agree := "E", detail := "missing file or detector" }
 
 def step (st : St) (line : String) : St × Option Verdict :=
